@@ -153,6 +153,7 @@ def run_one(choices, params):
                 conn._channel.close()
             except Exception:
                 pass
+        spy.check_missed()
         if deferred:
             raise deferred[0]
         return True
